@@ -4,8 +4,9 @@ use crate::model::{self, tok, Model};
 use crate::quotex;
 use crate::report::Ctx;
 use crate::rules::util::*;
+use crate::eval::{Env, Evaluator, Val};
 use serde_json::json;
-use std::collections::BTreeSet;
+use std::collections::{BTreeMap, BTreeSet};
 
 pub fn run(m: &Model, ctx: &mut Ctx, facts: &Facts) {
     ctx.explanation = "C12.reset (MIR def-use + dominators): for every Backend impl, each field of the backend struct whose type is one of ModuleHeader's environment enums \
@@ -160,6 +161,7 @@ Equality of the per-module output between two different compilations is not comp
     crate::rules::c03::header_flow(m, ctx, "C12.header");
     grouping(m, ctx);
     imports(m, ctx);
+    associated_imports(m, ctx);
 }
 
 /// definitions are grouped back into modules by their own header's name
@@ -176,6 +178,90 @@ fn grouping(m: &Model, ctx: &mut Ctx) {
     if gm.len() != 1 {
         ctx.violate("C12.header", "one-generate_module-per-group", &f.file, f.line, &format!("expected exactly one generate_module call site in internal_compile, found {}", gm.len()));
     }
+}
+
+/// C12.assoc: besides the IMPORTS clauses as written, the linker adds the governing type of an imported value or class
+/// field to the importing module's import list (Validator::associated_import_type). That addition is evaluated on the
+/// three situations that matter: the type lives in another module and is not imported yet (added), is imported already
+/// (not added twice), or is defined in the importing module itself (never added: `use super::<own module>::T` inside
+/// the module that defines T is a second definition of the name).
+fn associated_imports(m: &Model, ctx: &mut Ctx) {
+    let Some(f) = anchor_fn(m, ctx, "C12.assoc", Some("Validator"), "associated_import_type", None) else { return };
+    let consts = const_resolver(m);
+    let params: Vec<String> = f.sig.inputs.iter().filter_map(|a| match a { syn::FnArg::Typed(t) => Some(tok(&t.pat)), _ => None }).collect();
+    if params.len() != 3 {
+        ctx.fail_closed("C12.assoc", "associated_import_type: expected (associated_type, module_header, associated_type_imports)");
+        return;
+    }
+    let header = |name: &str, imported: bool| {
+        let mut h = BTreeMap::new();
+        h.insert("name".to_string(), Val::Str(name.into()));
+        h.insert("module_identifier".to_string(), Val::none());
+        h.insert("$imported".to_string(), Val::Bool(imported));
+        Val::Ctor("ModuleHeader".into(), vec![], h)
+    };
+    for (what, type_module, already, want_added) in [
+        ("type of another module, not imported yet", "Beta", false, true),
+        ("type of another module, already imported", "Beta", true, false),
+        ("type defined in the importing module itself", "Alpha", false, false),
+        ("type defined in the importing module itself (and, impossibly, also imported)", "Alpha", true, false),
+    ] {
+        ctx.oblige("C12.assoc", what, true);
+        let tm = type_module.to_string();
+        let hook = move |_: &Evaluator, name: &str, a: &[Val]| -> Option<Result<Val, String>> {
+            match name {
+                ".get" if matches!(a.first(), Some(Val::Opaque(s)) if s == "tlds") => {
+                    let mut t = BTreeMap::new();
+                    t.insert("name".to_string(), Val::Str("Level".into()));
+                    t.insert("parameterization".to_string(), Val::none());
+                    let mut h = BTreeMap::new();
+                    h.insert("name".to_string(), Val::Str(tm.clone()));
+                    h.insert("module_identifier".to_string(), Val::none());
+                    t.insert("module_header".to_string(), Val::some(Val::Ctor("ModuleHeader".into(), vec![], h)));
+                    Some(Ok(Val::some(Val::Ctor("Type".into(), vec![Val::Ctor("ToplevelTypeDefinition".into(), vec![], t)], BTreeMap::new()))))
+                }
+                ".borrow" | ".borrow_mut" | ".as_ref" | ".clone" if a.len() == 1 => Some(Ok(a[0].clone())),
+                ".find_import" => match a.first() {
+                    Some(Val::Ctor(_, _, f)) => Some(Ok(if f.get("$imported") == Some(&Val::Bool(true)) { Val::some(Val::Str("Beta".into())) } else { Val::none() })),
+                    _ => None,
+                },
+                _ => None,
+            }
+        };
+        let ev = Evaluator { consts: &consts, call_hook: &hook, inline: None };
+        let mut env = Env::new();
+        let mut sv = BTreeMap::new();
+        sv.insert("tlds".to_string(), Val::Opaque("tlds".into()));
+        env.insert("self".into(), Val::Ctor("Validator".into(), vec![], sv));
+        env.insert(params[0].clone(), Val::Str("Level".into()));
+        env.insert(params[1].clone(), header("Alpha", already));
+        env.insert(params[2].clone(), Val::List(vec![]));
+        match ev.eval_fn_body(&f.block, &mut env) {
+            Ok(_) => match env.get(&params[2]) {
+                Some(Val::List(l)) => {
+                    let added = !l.is_empty();
+                    if added != want_added {
+                        ctx.violate("C12.assoc", &format!("associated-import:{}", if type_module == "Alpha" { "own-module" } else if already { "already-imported" } else { "missing" }), &f.file, f.line,
+                            &format!("associated_import_type, {}: the import list of module Alpha {} (expected: {})", what, if added { "gets a new entry" } else { "is left unchanged" }, if want_added { "one new entry" } else { "unchanged" }));
+                    } else if added && l.len() != 1 {
+                        ctx.violate("C12.assoc", "associated-import:count", &f.file, f.line, &format!("{}: {} entries added, expected exactly one", what, l.len()));
+                    }
+                }
+                o => ctx.fail_closed("C12.assoc", &format!("[{}]: import list became {:?}", what, o.map(|x| x.show()))),
+            },
+            Err(e) => ctx.fail_closed("C12.assoc", &format!("[{}]: {}", what, e)),
+        }
+    }
+    // every caller hands over the importing module's header unchanged
+    let mut callers = 0;
+    for g in m.fns.iter().filter(|g| g.self_ty.as_deref() == Some("Validator")) {
+        for mc in model::method_calls_in(&g.block) {
+            if mc.method == "associated_import_type" {
+                callers += 1;
+            }
+        }
+    }
+    ctx.floor("C12.assoc/callers", callers, 2);
 }
 
 fn imports(m: &Model, ctx: &mut Ctx) {
